@@ -16,7 +16,7 @@ from autobean_refactor import token_store as TS
 
 from . import core
 
-CLASSES = {'x': 'x', 'n': '\n', 'm': 'a\nbc', 'e': ''}
+CLASSES = {'x': 'x', 'n': '\n', 'm': 'a\nbc', 'e': '', 'k': 'a\n\nb'}
 _REV = {v: k for k, v in CLASSES.items()}
 
 
@@ -54,8 +54,19 @@ def set_load_factor(n: Optional[int]) -> dict[str, int]:
     return out
 
 
+class VTok(TS.Token):
+    """Token with value equality, like the library's RawTokenModel (RULE + raw_text): the store must never
+    confuse two distinct token objects that merely compare equal."""
+
+    def __eq__(self, other: object) -> bool:
+        return isinstance(other, VTok) and other.raw_text == self.raw_text
+
+    def __hash__(self) -> int:
+        return hash(self.raw_text)
+
+
 def tok(cls: str) -> TS.Token:
-    return TS.Token(CLASSES[cls])
+    return VTok(CLASSES[cls])
 
 
 def cls_of(t: TS.Token) -> str:
@@ -261,7 +272,7 @@ def enum_ops(exp: list[TS.Token], cfg: dict) -> list[list]:
                 if i == j and k == 0:
                     continue
                 for pat in patterns_by_k[k]:
-                    add_nl = sum(1 for c in pat if c in ('n', 'm'))
+                    add_nl = sum(1 for c in pat if c in ('n', 'm', 'k'))
                     if have_nl - removed_nl + add_nl > maxnl:
                         continue
                     if j > i:
@@ -291,7 +302,7 @@ def enum_ops(exp: list[TS.Token], cfg: dict) -> list[list]:
             for c in cfg['update_classes']:
                 if c == cur:
                     continue
-                delta = (c in ('n', 'm')) - ('\n' in t.raw_text)
+                delta = (c in ('n', 'm', 'k')) - ('\n' in t.raw_text)
                 if have_nl + delta > maxnl:
                     continue
                 ops.append(['update', idx, c])
